@@ -71,7 +71,7 @@ NSLOTS = 2
 LOCAL_REF_FORMS = ('DW_FORM_ref1', 'DW_FORM_ref2', 'DW_FORM_ref4', 'DW_FORM_ref8', 'DW_FORM_ref', 'DW_FORM_ref_udata')
 OTHER_REF_FORMS = ('DW_FORM_ref_sig8', 'DW_FORM_ref_sup4', 'DW_FORM_ref_sup8', 'DW_FORM_GNU_ref_alt')
 DWARF_OPS = {'CUAt', 'CUContaining', 'TopDIE', 'DIEAt', 'DIEGlobal', 'Parent', 'FollowRef', 'LineProg', 'LineEntries',
-             'CFI', 'CFIDecoded', 'TUBySig', 'NewIterTUs', 'NewIterCUs', 'NewIterDIEs', 'NewIterChildren', 'NewIterSiblings'}
+             'CFI', 'CFIDecoded', 'TUBySig', 'NewIterTUs', 'RefetchDwarf', 'NewIterCUs', 'NewIterDIEs', 'NewIterChildren', 'NewIterSiblings'}
 
 
 # ------------------------------------------------------------------ serialisation of observed values
@@ -172,7 +172,20 @@ class Opened:
             self.dyn = self.elf.get_section(meta['dyn_idx']) if meta['dyn_idx'] is not None else None
             self.strtab = self.symtab.stringtable if self.symtab is not None else None
             self.elf.stream.seek(0)
-        self.dw = fresh_dwarf(meta) if (meta['has_dwarf'] and 'D' in parts) else None
+        self.dw = self.dwelf = None
+        if meta['has_dwarf'] and 'D' in parts:
+            if meta.get('refetch'):
+                # relocatable object: the DWARFInfo comes from an ELFFile that is kept, so that get_dwarf_info() can be
+                # called on it again (relocations are applied to the section copies on every call)
+                from elftools.elf.elffile import ELFFile
+                self.dwelf = ELFFile(io.BytesIO(meta['image']))
+                self.dw = self.dwelf.get_dwarf_info()
+                for sid, attr in SIDS.items():
+                    sec = getattr(self.dw, attr)
+                    if sec is not None:
+                        sec.stream.seek(0)
+            else:
+                self.dw = fresh_dwarf(meta)
         self.slots = [None] * NSLOTS
         self.counts = [0] * NSLOTS
         self.cfi = [None, None]          # the entry lists the client holds (.debug_frame, .eh_frame)
@@ -263,6 +276,14 @@ class Opened:
             if lp is None:
                 return 'none'
             return ['vals', self.ids.of(ser_lpentries(lp.get_entries()))]
+        if k == 'RefetchDwarf':
+            if self.dwelf is None:
+                from elftools.elf.elffile import ELFFile
+                self.dwelf = ELFFile(io.BytesIO(self.meta['image']))
+            self.dwelf.get_dwarf_info()          # the new object is dropped: the client keeps the one it has
+            return 'done'
+        if k == 'ESectionTyped':
+            return self.a_section(elf.get_section(op[1], type=(self.meta['shtypes'].get(op[2], 'SHT_NO_SUCH_TYPE'),)))
         if k == 'CFI':
             es = dw.EH_CFI_entries() if op[1] else dw.CFI_entries()
             self.cfi[1 if op[1] else 0] = es
@@ -682,6 +703,7 @@ def tabulate(meta, fresh_each=True, die_budget=4000):
     def fresh():
         return ELFFile(io.BytesIO(image))
     e = fresh()
+    meta['refetch'] = e['e_type'] == 'ET_REL'
     nsec = e.num_sections()
     shoff, shnum, shentsize = e['e_shoff'], e['e_shnum'], e['e_shentsize']
     shdr_size = e.structs.Elf_Shdr.sizeof()
@@ -702,7 +724,10 @@ def tabulate(meta, fresh_each=True, die_budget=4000):
         sec = f.get_section(n)
         final = f.stream.tell()
         h = sec.header
-        shdrs.append([h['sh_name'], h['sh_size'], ids.of(ser_section(sec)), [[0, final]], shoff + n * shentsize + shdr_size])
+        tyid = ids.of(('shtype', h['sh_type']))
+        meta.setdefault('shtypes', {})[tyid] = h['sh_type']
+        shdrs.append([h['sh_name'], h['sh_size'], ids.of(ser_section(sec)), [[0, final]], shoff + n * shentsize + shdr_size,
+                      tyid])
         tab_str(shstrndx, shstr_base, h['sh_name'])
         if h['sh_type'] == 'SHT_SYMTAB' and symtab_idx is None:
             symtab_idx = n
@@ -938,6 +963,13 @@ def alphabet(meta, machine):
         sigs = meta['tu_sigs']
         ops += [['NewIterTUs', 0], ['Next', 0], ['TUBySig', sigs[0]], ['TUBySig', sigs[-1]], ['TUBySig', 0x1234],
                 ['Disturb', 12, 3], ['CUAt', meta['units'][-1]['off']]]
+    elif machine == 'DR':
+        # a relocatable object: get_dwarf_info() again on the ELFFile between queries on the DWARFInfo already held
+        us = meta['units']
+        u0 = us[0]
+        ents = entries_of(u0['tree'])
+        ops += [['RefetchDwarf'], ['TopDIE', u0['off']], ['LineEntries', u0['off']], ['CUAt', us[-1]['off']]]
+        ops += [['DIEAt', u0['off'], e[0]] for e in ents[1:4]]
     elif machine == 'DA':
         # listing the children of an inner entry first and those of an ancestor two (or more) levels up afterwards,
         # on a path without DW_AT_sibling: the ancestor's walk meets entries whose closing null entry is already cached
@@ -987,6 +1019,8 @@ def alphabet(meta, machine):
                 ['ESectionByName', ids.name('.debug_info') if meta['name'] != 'C' else ids.name('.data')],
                 ['ESectionByName', ids.name('.strtab')],
                 ['ESectionByName', ids.name('.no-such-name')], ['ESegment', 1]]
+        ty2 = meta['desc'][8][2][5]
+        ops += [['ESectionTyped', 2, ty2], ['ESectionTyped', 2, meta['desc'][8][1][5] if meta['desc'][8][1][5] != ty2 else 0]]
         ops += [['ESymbol', 2], ['ESymbolByName', ids.name({'A': 'dup', 'B': 'h', 'C': 'f2'}[meta['name']])],
                 ['EString', 1]]
         ops += [['ENumTags'], ['EGetTag', 1], ['EGetTag', meta['num_tags'] + 1]]
@@ -1135,6 +1169,7 @@ def _hkey(name, history):
 
 
 PAIRS = [('A', 'Abe')]
+RELOCATABLE_FILES = ['testfiles_for_unittests/arm_exidx_test.o']      # REL relocations against symbols with values
 
 RANDOM_FILES = [
     'testfiles_for_unittests/lib_versioned64.so.1.elf', 'testfiles_for_unittests/dwarf_v5_forms.debug',
@@ -1181,6 +1216,12 @@ def random_op(rng, meta):
             refs = [i for i, r in enumerate(raw[4]) if r[0] in (0, 1)]
             if refs:
                 choices += [['FollowRef', u['off'], off, rng.choice(refs)]] * 3
+    if meta.get('refetch') and meta['has_dwarf']:
+        choices += [['RefetchDwarf']] * 2
+    if meta['num_sections']:
+        n = rng.randrange(meta['num_sections'])
+        choices += [['ESectionTyped', n, meta['desc'][8][n][5]],
+                    ['ESectionTyped', n, meta['desc'][8][rng.randrange(meta['num_sections'])][5]]]
     choices += [['ENumSections'], ['ESection', rng.randrange(max(1, meta['num_sections']))],
                 ['ESectionByName', rng.randrange(1, len(meta['ids'].name_list) + 1)],
                 ['NewIterSections', rng.randrange(NSLOTS)]]
@@ -1271,6 +1312,20 @@ def gen(ctx):
             for h, a, st in edges:
                 _CACHE[_hkey(name, h)] = (a, st)
                 cases.append(('bfs', [name, h]))
+    for name in RELOCATABLE_FILES:
+        try:
+            meta = load_file(name)
+        except Exception as ex:
+            ctx.notes.append('seed %s not usable: %s' % (name, ex))
+            continue
+        if not (meta.get('refetch') and meta['has_dwarf'] and meta['units']):
+            continue
+        edges, nstates, closed = explore(meta, 'DR', depth)
+        stats['%s/DR' % name.split('/')[-1]] = dict(depth=depth, states=nstates, edges=len(edges), closed=closed,
+                                                     alphabet=len(alphabet(meta, 'DR')))
+        for h, a, st in edges:
+            _CACHE[_hkey(name, h)] = (a, st)
+            cases.append(('bfs', [name, h]))
     # two differently configured file objects in one process (other byte order): every interleaving of their
     # queries up to the depth bound; each answer is compared with the stateless answer for ITS file
     for nx, ny in PAIRS:
